@@ -17,8 +17,10 @@ func init() {
 	}
 }
 
-// tbState projects the observable state: Offset, len(Words) and the absolute positions of the stored 1-bits.
-func tbState(tb *bitmap.TailBitmap) J {
+// tbState projects the observable state: Offset, len(Words) and the positions of the stored 1-bits, all
+// RELATIVE to the initial offset o0 (the machine is translation invariant for multiples of 64), so that
+// bitmaps anywhere in the int64 range stay inside TLC's integers.
+func tbState(tb *bitmap.TailBitmap, o0 int64) J {
 	ones := []int64{}
 	for i, w := range tb.Words {
 		if w == 0 {
@@ -26,11 +28,15 @@ func tbState(tb *bitmap.TailBitmap) J {
 		}
 		for b := 0; b < 64; b++ {
 			if w>>uint(b)&1 == 1 {
-				ones = append(ones, num(tb.Offset+int64(i*64+b)))
+				ones = append(ones, num(tb.Offset-o0+int64(i*64+b)))
 			}
 		}
 	}
-	st := J{"off": num(tb.Offset), "nw": len(tb.Words), "ones": ones, "rec": num(tbReclaimed(tb))}
+	rec := tbReclaimed(tb)
+	if rec >= 0 {
+		rec = num(rec - o0)
+	}
+	st := J{"off": num(tb.Offset - o0), "nw": len(tb.Words), "ones": ones, "rec": rec}
 	if len(ones) > tbMaxOnes {
 		// No generated history stores that many 1-bits beyond Offset when words are compacted as
 		// specified; the projection is cut (and therefore rejected) instead of growing quadratically.
@@ -67,8 +73,19 @@ func expandTB(ops []In) []In {
 	return out
 }
 
+// relProbe logs a probed index relative to o0. Far below o0 only "below o0" and the index mod 64 matter (o0 is
+// a multiple of 64): such an index is moved to just above -2^30, keeping both, to stay inside TLC's integers.
+func relProbe(j, o0 int64) int64 {
+	d := j - o0
+	if d < -(1 << 30) {
+		d = -(1 << 30) + ((d%64)+64)%64
+	}
+	return num(d)
+}
+
 func execTB(in In, em *Emitter) {
 	var tb *bitmap.TailBitmap
+	var o0 int64
 	for _, op := range expandTB(in.L("ops")) {
 		k := op.S("k")
 		if k == "ProbeIf" {
@@ -86,23 +103,24 @@ func execTB(in In, em *Emitter) {
 		switch k {
 		case "New":
 			o := op.I("o")
-			ev["o"] = o
+			o0 = o
+			ev["omod"] = o % 64 // must be 0 (the property's domain); everything else is logged relative to o
 			abn = guard(func() { tb = bitmap.NewTailBitmap(o) })
 		case "Set":
 			idx := op.I("idx")
-			ev["idx"] = idx
+			ev["idx"] = num(idx - o0)
 			abn = guard(func() { tb.Set(idx) })
 		case "Compact":
 			abn = guard(func() { tb.Compact() })
 		case "Get":
 			j := op.I("j")
-			ev["j"] = j
+			ev["j"] = relProbe(j, o0)
 			var r uint64
 			abn = guard(func() { r = tb.Get(j) })
 			ev["r"] = wordOnes(r)
 		case "Get1":
 			j := op.I("j")
-			ev["j"] = j
+			ev["j"] = relProbe(j, o0)
 			var r uint64
 			abn = guard(func() { r = tb.Get1(j) })
 			ev["r"] = wordOnes(r)
@@ -111,7 +129,7 @@ func execTB(in In, em *Emitter) {
 		}
 		ev["abn"] = abn
 		if tb != nil {
-			ev["st"] = tbState(tb)
+			ev["st"] = tbState(tb, o0)
 		} else {
 			ev["st"] = J{"off": 0, "nw": 0, "ones": []int64{}, "rec": 0}
 		}
@@ -196,9 +214,10 @@ func (t *tbGen) done() { t.g.Case("tb", J{"ops": t.ops}) }
 
 func genC15(g *Gen) {
 	r := g.R
-	offsets := []int64{0, 64, 128, 640, 4096, 65536, 1 << 20}
+	// initial offsets anywhere in the int64 range (multiples of 64), incl. around 2^31, 2^32, 2^37 (word index 2^31) and near 2^62
+	offsets := []int64{0, 64, 128, 640, 4096, 65536, 1 << 20, 1<<31 - 64, 1 << 31, 1<<32 - 128, 1 << 32, 1<<37 - 64, 1 << 37, 1 << 45, 1<<62 - 1<<20}
 	// 1. structured fills of a few words: front-to-back, back-to-front, word permutations.
-	for _, o := range offsets[:g.N(3, 7)] {
+	for _, o := range append(offsets[:g.N(2, 7)], offsets[7+r.Intn(8)]) {
 		for words := 1; words <= g.N(3, 5); words++ {
 			for mode := 0; mode < 6; mode++ {
 				t := newTBGen(g, o)
